@@ -303,3 +303,34 @@ def stmt_lists(node):
 
 def docstring_of(fn):
     return ast.get_docstring(fn, clean=False) or ''
+
+
+def path_conditions(node):
+    """[(test, polarity)] known to hold whenever `node` is evaluated: the tests of the enclosing if-statements / conditional
+    expressions, and the negated tests of earlier guard statements (`if T: continue / break / return / raise`) in the enclosing
+    blocks.  Purely syntactic: an assignment between a guard and the node that changes an operand of T is not looked for (the nested
+    if-form has the same blind spot)."""
+    out = []
+    child = node
+    for a in ancestors(node):
+        if isinstance(a, ast.If):
+            if any(child is b for b in a.body):
+                out.append((a.test, True))
+            elif any(child is b for b in a.orelse):
+                out.append((a.test, False))
+        elif isinstance(a, ast.IfExp):
+            if child is a.body:
+                out.append((a.test, True))
+            elif child is a.orelse:
+                out.append((a.test, False))
+        for blk in stmt_lists(a) if isinstance(a, ast.stmt) or isinstance(a, ast.Module) else []:
+            if any(child is b for b in blk):
+                for b in blk:
+                    if b is child:
+                        break
+                    if isinstance(b, ast.If) and not b.orelse and b.body and isinstance(b.body[-1], (ast.Continue, ast.Break, ast.Return, ast.Raise)):
+                        out.append((b.test, False))
+        if isinstance(a, (ast.FunctionDef, ast.AsyncFunctionDef, ast.Lambda)):
+            break
+        child = a
+    return out
